@@ -15,6 +15,8 @@ TSrc == Ev.e = "src" /\ src' = Ev.graphs /\ committed' = <<>> /\ snap' = FALSE
 TRun == /\ Ev.e = "run" /\ UNCHANGED src
         /\ ManifestMeansComplete(Ev.dir, Ev.src)
         /\ (Ev.how = "returned" /\ Ev.ok) => Equivalent(Ev.dir, Ev.src)
+        \* ... and, source and options unchanged, with the manifest an uninterrupted dump writes (generation time aside)
+        /\ (Ev.how = "returned" /\ Ev.ok) => Ev.manifest_same
         /\ (Ev.kind = "resume" /\ Ev.how = "returned" /\ ~Ev.ok) => Undamaged(Ev.dir, committed)
         /\ (Ev.kind = "resume" /\ Ev.how = "returned" /\ Ev.changed \in {"options", "stray"}) => ~Ev.ok
         /\ (Ev.kind = "resume" /\ Ev.how = "returned" /\ Ev.changed = "source" /\ snap) => ~Ev.ok
